@@ -6,13 +6,25 @@ from ..ir import load_program, strip_casts, norm_callee
 from ..build import AnalysisBroken, VERIF
 from ..util import resolve_ptr, backward_slice, const_int
 from ..effects import slot_call, fields_in_slice, success_points
-from ..k6 import run_k6
+from ..k6 import run_k6, run_k6_src
 
 # sinks the engine cannot derive a bound for, each read and reasoned (function, sink kind, ordinal within function)
 EXCEPTIONS = {
     ("sqfs_tree_node_get_path", "memcpy", 0):
         "two-pass length/fill: the buffer is allocated with the sum of strlen(name)+1 over the very parent chain that "
         "the second loop walks backwards; the tree is not modified in between",
+}
+
+
+SRC_EXCEPTIONS = {
+    ("sqfs_data_reader_read", "memcpy", 0):
+        "copy out of the cached data block at 'offset': the skipping loop in front ends with offset <= block_size or "
+        "i == block_count, the copy loop runs only while i < block_count, and every later round has offset 0; the "
+        "length is min(block_size - offset, size). The correlation between the two loops' conditions is beyond the "
+        "guard reasoning of the engine",
+    ("xattr_reader_copy", "memcpy", 0):
+        "copy of the whole id_block_starts table: length sizeof(u64) * num_id_blocks is the very product the table was "
+        "allocated with (alloc_array(sizeof(u64), num_id_blocks)); offset 0",
 }
 
 
@@ -222,6 +234,8 @@ def run(chk):
     prog = load_program("all")
     files = anchored_files()
     n = run_k6(chk, prog, files, EXCEPTIONS, "K6")
+    run_k6_src(chk, prog, files, SRC_EXCEPTIONS, "K6-src")
+    chk.floor("K6-src", 6)
     loop_guard_rule(chk, prog)
     table_window_rule(chk, prog)
     super_sanity_rule(chk, prog)
@@ -253,6 +267,14 @@ def controls(chk):
     chk.control("K6-field", ("K6", "ctl_wrong_bound") in got, "length compared with an unrelated quantity")
     chk.control("silent-on-good", not any(fn in ("ctl_checked", "ctl_alloc_fill", "ctl_clamped", "ctl_grow_good") for (_r, fn) in got),
                 "bounded sinks must not be reported")
+    chk.control("K6-offset", ("K6", "ctl_offset_ignored") in got and ("K6", "ctl_offset_wrap") in got,
+                "offset into a field buffer: length alone compared / 32 bit sum that wraps")
+    chk.control("K6-offset/silent", ("K6", "ctl_offset_ok") not in got, "offset <= C and length <= C - offset must not be reported")
+    sub3 = Check("C05-control", chk.tier)
+    run_k6_src(sub3, prog, {"c05_controls.c"}, {}, "K6-src")
+    got3 = {(o["rule"], o["function"]) for o in sub3.obl if o["verdict"] == "VIOLATED"}
+    chk.control("K6-src", ("K6-src", "ctl_src_wrap") in got3, "copy out of a field buffer guarded by a 32 bit sum that wraps")
+    chk.control("K6-src/silent", ("K6-src", "ctl_src_ok") not in got3 and ("K6-src", "ctl_src_sum64") not in got3, "guarded copy out of a field buffer must not be reported")
     chk.control("K6-growth", ("K6", "ctl_grow_bad") in got, "buffer grown until the new entry alone fits, ignoring what is stored already")
     from ..dangling import run_dangling
     sub2 = Check("C05-control", chk.tier)
